@@ -349,6 +349,133 @@ func checkContainmentTie(c *Ctx, p *core.Prog) {
 		}
 	}
 	c.R.RequireMin("R01.4", "places where a contained candidate is given up", n, 1)
+	checkOverlapWeights(c, p, m, cont)
+	checkWithdrawalsCommitted(c, p, m)
+}
+
+// checkOverlapWeights: R05.5 (shared by C01 and C05). The two weights that the containment branch of the overlap filter
+// compares are computed from the matches' confidences and *token* spans. Line spans change when blank lines are inserted
+// or lines are re-flowed; a tie-break on them makes the reported set depend on presentation.
+func checkOverlapWeights(c *Ctx, p *core.Prog, m, cont *ssa.Function) {
+	n := 0
+	for _, fn := range pkgClosure(m, v2pkg) {
+		for _, b := range fn.Blocks {
+			ifi, ok := b.Instrs[len(b.Instrs)-1].(*ssa.If)
+			if !ok {
+				continue
+			}
+			bo, ok := ifi.Cond.(*ssa.BinOp)
+			if !ok || (bo.Op != token.GTR && bo.Op != token.LSS) {
+				continue
+			}
+			if bt, isB := bo.X.Type().Underlying().(*types.Basic); !isB || bt.Info()&types.IsFloat == 0 {
+				continue
+			}
+			behind := false
+			for _, ft := range core.FactsAt(b) {
+				if call, isCall := ft.Cond.(*ssa.Call); isCall && ft.Truth && call.Call.StaticCallee() == cont {
+					behind = true
+				}
+			}
+			if !behind {
+				continue
+			}
+			n++
+			fields := map[string]bool{}
+			var walk func(v ssa.Value, depth int)
+			seen := map[ssa.Value]bool{}
+			walk = func(v ssa.Value, depth int) {
+				if seen[v] || depth > 10 {
+					return
+				}
+				seen[v] = true
+				switch x := v.(type) {
+				case *ssa.BinOp:
+					walk(x.X, depth+1)
+					walk(x.Y, depth+1)
+				case *ssa.Convert:
+					walk(x.X, depth+1)
+				case *ssa.Phi:
+					for _, e := range x.Edges {
+						walk(e, depth+1)
+					}
+				case *ssa.UnOp:
+					if fa, ok := x.X.(*ssa.FieldAddr); ok && strings.HasSuffix(core.TypeName(fa.X.Type()), "/v2.Match") {
+						fields[core.FieldName(fa)] = true
+					}
+				}
+			}
+			walk(bo.X, 0)
+			walk(bo.Y, 0)
+			var bad []string
+			for f := range fields {
+				if strings.Contains(f, "Line") {
+					bad = append(bad, f)
+				}
+			}
+			sort.Strings(bad)
+			c.R.Check(len(bad) == 0 && fields["Confidence"], "R05.5", core.ShortFn(fn)+": the weights compared behind contains(...) are built from confidences and token spans", p.Pos(bo.Pos()),
+				fmt.Sprintf("fields used: %v", keysOf(fields)), fmt.Sprintf("the weights use %v: line spans change with blank lines and re-flowed text, so the same license text is kept or withdrawn depending on its layout", bad))
+		}
+	}
+	c.R.RequireMin("R05.5", "weight comparisons in the containment branch", n, 1)
+}
+
+// checkWithdrawalsCommitted: R01.6. A candidate that is better than an earlier, retained match may take that match's
+// place - but only if the candidate itself is retained. All writes into the retain flags therefore happen where the
+// candidate is known to be kept (the block of `retain[i] = true` dominates them): a withdrawal written straight from the
+// comparison loop takes a reported copy away on behalf of a candidate that is dropped a moment later.
+func checkWithdrawalsCommitted(c *Ctx, p *core.Prog, m *ssa.Function) {
+	n := 0
+	for _, fn := range pkgClosure(m, v2pkg) {
+		var flags *ssa.MakeSlice
+		for _, b := range fn.Blocks {
+			for _, in := range b.Instrs {
+				if ms, ok := in.(*ssa.MakeSlice); ok {
+					if sl, isSl := ms.Type().Underlying().(*types.Slice); isSl && isBool(sl.Elem()) {
+						flags = ms
+					}
+				}
+			}
+		}
+		if flags == nil {
+			continue
+		}
+		var stores []*ssa.Store
+		var keepStore *ssa.Store
+		for _, b := range fn.Blocks {
+			for _, in := range b.Instrs {
+				st, ok := in.(*ssa.Store)
+				if !ok {
+					continue
+				}
+				ia, ok := st.Addr.(*ssa.IndexAddr)
+				if !ok || ia.X != ssa.Value(flags) {
+					continue
+				}
+				stores = append(stores, st)
+				if cst, isC := st.Val.(*ssa.Const); isC && cst.Value != nil && cst.Value.String() == "true" {
+					keepStore = st
+				}
+			}
+		}
+		if keepStore == nil || len(stores) < 2 {
+			continue
+		}
+		n++
+		bad := ""
+		for _, st := range stores {
+			if st == keepStore {
+				continue
+			}
+			if !(keepStore.Block() == st.Block() || keepStore.Block().Dominates(st.Block())) {
+				bad = p.Pos(st.Pos())
+			}
+		}
+		c.R.Check(bad == "", "R01.6", core.ShortFn(fn)+": a retained match is withdrawn only on behalf of a candidate that is retained", p.Pos(keepStore.Pos()),
+			"every other write into the retain flags is behind the point where the candidate is kept", "the retain flag of an earlier match is written at "+bad+" before the candidate is known to be kept: a verbatim copy can be withdrawn for a candidate that is then rejected itself")
+	}
+	c.R.RequireMin("R01.6", "overlap filters with deferred withdrawals", n, 1)
 }
 
 // ---------------------------------------------------------------------------------------------
@@ -550,6 +677,9 @@ func runC05(c *Ctx) {
 	// shared with C06: the "words of this line were already handed over" offset belongs to one line (R06.9/R06.10): when it
 	// survives a line that holds blanks only, trailing blanks change which words of the next line are list markers
 	checkMidLineReset(c, p)
+	if mf, cf := p.Func(v2pkg, "(*Classifier).match"), p.Func(v2pkg, "contains"); mf != nil && cf != nil {
+		checkOverlapWeights(c, p, mf, cf)
+	}
 	// shared with C03: each notice line is reported by a pseudo-match of its own, built once (R03.13) - a pseudo-match that
 	// is extended when the next line is a notice too makes the number of matches depend on blank lines between them
 	checkMatchImmutable(c, p)
